@@ -145,7 +145,8 @@ func genSessions(g *vh.Gen) {
 			c.Naming = "local"
 		}
 		stream := smtpd.GenDialogue(g, c, pool[:2+g.Intn(3)], o)
-		g.Emit("smtp", append(c.Fields(), vh.H(stream))...)
+		// a third of the sessions run with extension listeners that answer every MAIL / RCPT with an explicit defer
+		g.Emit(g.Pick("smtp", "smtp", "smtpdefer"), append(c.Fields(), vh.H(stream))...)
 	}
 }
 
@@ -161,6 +162,8 @@ func exec(kind string, in []string) []string {
 	switch kind {
 	case "smtp":
 		return smtpd.Exec(in)
+	case "smtpdefer":
+		return smtpd.ExecDefer(in)
 	case "wild":
 		return []string{vh.B(stringutil.MatchWithWildcards(vh.US(in[0]), vh.US(in[1])))}
 	case "pol":
